@@ -182,9 +182,12 @@ Proof.
 Qed.
 
 (* ---------------------------------------------------------------- creation preserves well-formedness *)
-Lemma wf_create_sg : forall c db rp t eng, wf c -> t < MAXNANO1 -> wf (fst (create_sg true c db rp t eng)).
+Lemma wf_create_sg_gen : forall clip c db rp t eng, wf c ->
+  (forall p ig, get_pol c db rp = Some p -> existsb (fun g => covers g t eng) (rp_sgs p) = false ->
+     aligned (new_sgroup clip c p ig t eng) /\ Forall (disjoint2 (new_sgroup clip c p ig t eng)) (rp_sgs p)) ->
+  wf (fst (create_sg clip c db rp t eng)).
 Proof.
-  intros c db rp t eng H Ht. unfold create_sg.
+  intros clip c db rp t eng H Hnew. unfold create_sg.
   destruct (ptnum c =? 0) eqn:Ept; [exact H|].
   destruct (get_pol c db rp) as [p|] eqn:Eg; [|exact H].
   destruct (existsb (fun g => covers g t eng) (rp_sgs p)) eqn:Ecov; [exact H|].
@@ -194,9 +197,8 @@ Proof.
   pose proof (nonneg_get _ H) as NN.
   destruct (get_pol_spec _ _ _ _ Eg) as (Hfind & Hp & Edb & _). unfold find_pol in Hfind.
   destruct (ensure_ig_spec _ _ _ _ _ _ Eig) as (Ilen & Iold & Inew); [lia|].
-  pose proof (wf_dur _ H) as DUR. rewrite Forall_forall in DUR. pose proof (DUR p Hp) as Dp.
-  destruct (new_sgroup_ok c p ig t eng Ecov Dp Ht) as [Gal Gdis].
-  set (g := new_sgroup true c p ig t eng) in *.
+  destruct (Hnew p ig eq_refl Ecov) as [Gal Gdis].
+  set (g := new_sgroup clip c p ig t eng) in *.
   set (n := Z.to_nat (ptnum c)).
   assert (En : Z.of_nat n = ptnum c) by (unfold n; lia).
   set (upd := fun q => pol_set_sgs (if isnew then pol_set_igs q (insert_ig ig (rp_igs q)) else q) (insert_sg g (rp_sgs q))).
@@ -273,4 +275,60 @@ Proof.
   - exact (wf_ptv _ H).
   - cbn [max_sg max_sh max_ig max_ix max_mst max_node ptnum c' set_sg_counters set_pols]. destruct isnew; repeat (constructor; [lia|]); constructor.
   - rewrite Epols. apply updf_Forall; [|exact (wf_dur _ H)]. intros x _ Q. destruct (Hkeys x) as (_ & _ & -> & _). exact Q.
+Qed.
+
+Lemma wf_create_sg : forall c db rp t eng, wf c -> t < MAXNANO1 -> wf (fst (create_sg true c db rp t eng)).
+Proof.
+  intros c db rp t eng H Ht. apply wf_create_sg_gen; [exact H|]. intros p ig Eg Ecov.
+  destruct (get_pol_spec _ _ _ _ Eg) as (_ & Hp & _).
+  pose proof (wf_dur _ H) as DUR. rewrite Forall_forall in DUR. apply new_sgroup_ok; [exact Ecov | exact (DUR p Hp) | exact Ht].
+Qed.
+
+(* ---------------------------------------------------------------- today's creation, duration unchanged *)
+(* two cells of one duration are the same cell or lie apart *)
+Lemma cells_apart : forall a b d, 0 < d -> a = trunc a d -> b = trunc b d -> a = b \/ a + d <= b \/ b + d <= a.
+Proof.
+  intros a b d Hd Ha Hb. unfold trunc in *. destruct (Z.leb_spec d 0); [lia|].
+  assert (A : (a + YEAR1) mod d = 0) by lia. assert (B : (b + YEAR1) mod d = 0) by lia.
+  apply Z.mod_divide in A; [|lia]. apply Z.mod_divide in B; [|lia]. destruct A as [q1 A]. destruct B as [q2 B].
+  assert (q1 = q2 \/ q1 + 1 <= q2 \/ q2 + 1 <= q1) as [E|[E|E]] by lia; [left | right; left | right; right]; nia.
+Qed.
+
+(* the live groups of that engine type are whole cells of the policy's CURRENT shard-group duration *)
+Definition full_cells (p : policy) (eng : Z) : Prop :=
+  forall g, In g (rp_sgs p) -> sg_del g = false -> sg_eng g = eng ->
+    sg_start g = trunc (sg_start g) (rp_sgdur p) /\ sg_end g = cell_end (sg_start g) (rp_sgdur p).
+
+Lemma new_sgroup_ok_current : forall c p ig t eng, existsb (fun g => covers g t eng) (rp_sgs p) = false -> 0 < rp_sgdur p -> t < MAXNANO1 ->
+  full_cells p eng ->
+  let g := new_sgroup false c p ig t eng in aligned g /\ Forall (disjoint2 g) (rp_sgs p).
+Proof.
+  intros c p ig t eng Hex Hd Ht Hfull g.
+  set (d := rp_sgdur p) in *. set (s := trunc t d). set (e := cell_end s d).
+  assert (Hs : s <= t) by (apply trunc_le; assumption).
+  pose proof (trunc_gt t d Hd) as Hg. fold s in Hg.
+  assert (He : t < e) by (unfold e, cell_end; lia).
+  assert (Es : trunc s d = s) by (apply trunc_idem; [exact Hd | apply Z.le_refl | lia]).
+  split.
+  - intros _. cbn [g new_sgroup sg_start sg_end sg_dur]. fold d s e. split; [lia|]. split; [exact Hd|]. rewrite Es. fold e. lia.
+  - apply Forall_forall. intros x Hx Hdg Hdx Hex'. cbn [g new_sgroup sg_start sg_end sg_eng sg_del] in *. fold d s e.
+    destruct (Hfull x Hx Hdx (eq_sym Hex')) as [F1 F2]. fold d in F1, F2.
+    destruct (not_covered _ _ _ _ Hex Hx (eq_sym Hex') Hdx) as [A|A].
+    + (* the old cell starts after t: it is a later cell *)
+      destruct (cells_apart s (sg_start x) d Hd (eq_sym Es) F1) as [E|[E|E]]; [lia | left; unfold e, cell_end; lia | lia].
+    + (* the old cell ends at or before t *)
+      destruct (cells_apart s (sg_start x) d Hd (eq_sym Es) F1) as [E|[E|E]].
+      * exfalso. rewrite F2, <- E in A. fold e in A. lia.
+      * exfalso. rewrite F2 in A. unfold cell_end in A. lia.
+      * right. rewrite F2. unfold cell_end. lia.
+Qed.
+
+Lemma wf_create_sg_current : forall c db rp t eng, wf c -> t < MAXNANO1 ->
+  (forall p, get_pol c db rp = Some p -> full_cells p eng) ->
+  wf (fst (create_sg false c db rp t eng)).
+Proof.
+  intros c db rp t eng H Ht Hfull. apply wf_create_sg_gen; [exact H|]. intros p ig Eg Ecov.
+  destruct (get_pol_spec _ _ _ _ Eg) as (_ & Hp & _).
+  pose proof (wf_dur _ H) as DUR. rewrite Forall_forall in DUR.
+  apply new_sgroup_ok_current; [exact Ecov | exact (DUR p Hp) | exact Ht | apply Hfull; exact Eg].
 Qed.
